@@ -59,8 +59,11 @@ contract(M, 'TemplateModel._find_best_channels', props=['C05'],
           ('channel_ids = channel_ids[order]', 'members-after-ordering', 'all(iff(any(channel_ids[j] == c for j in range(len(channel_ids))), near(best_channel, self.n_closest_channels, c) and self.channel_shanks[c] == self.channel_shanks[best_channel] and (template.colmax[c] - template.colmin[c]) >= amplitude_threshold * (template.colmax[best_channel] - template.colmin[best_channel])) for c in range(len(template.colmax)))'),
           ('order =', 'order-is-onto', 'len(order) == len(channel_ids) and all(any(order[k] == p for k in range(len(order))) for p in range(len(order)))'),
           ('channel_ids = channel_ids[order]', 'peak-still-listed', 'any(channel_ids[j] == best_channel for j in range(len(channel_ids)))')],
+    using={'order-is-onto': ['theory:np.argsort', 'theory:slice', 'theory:index'],
+           'order-is-injective': ['theory:np.argsort', 'theory:slice', 'theory:index']},
     result='tuple[arr[int],arr[real],int]',
     ensures=[
+        ('a-listed-channels-exist', 'all(0 <= result[0][j] and result[0][j] < nc for j in range(len(result[0])))'),
         ('a-listed-channels-distinct', 'all(result[0][i] != result[0][j] for i in range(len(result[0])) for j in range(i + 1, len(result[0])))'),
         ('b-decreasing-peak-to-peak-amplitude', 'all(%s >= %s for i in range(len(result[0])) for j in range(i + 1, len(result[0])))' % (_AMP % ('result[0][i]', 'result[0][i]'), _AMP % ('result[0][j]', 'result[0][j]'))),
         ('c-peak-channel-attains-the-maximum-and-is-listed', '0 <= result[2] and result[2] < nc and all(%s <= %s for c in range(nc)) and any(result[0][j] == result[2] for j in range(len(result[0])))' % (_AMP % ('c', 'c'), _AMP % ('result[2]', 'result[2]'))),
@@ -70,3 +73,50 @@ contract(M, 'TemplateModel._find_best_channels', props=['C05'],
          'all(iff(any(result[0][j] == c for j in range(len(result[0]))), near(result[2], self.n_closest_channels, c) and self.channel_shanks[c] == self.channel_shanks[result[2]] '
          'and %s >= thr * %s) for c in range(nc))' % (_AMP % ('c', 'c'), _AMP % ('result[2]', 'result[2]'))),
     ])
+
+# =========================================================================================================================
+# _get_template_dense: the record plumbing.  A (n_samples, n_channels) template is seen through its per-channel extremes (Template2D);
+# the NumPy operations on it are assumed contracts (column selection permutes the extremes, astype/unwhitening return another template
+# of the same width).  What is PROVED is which amplitude / channel list / waveform columns end up together in the record.
+# =========================================================================================================================
+T2 = {'ndim': 'int', 'colmax': 'arr[real]', 'colmin': 'arr[real]', 'shape': 'tuple[int,int]'}
+declare_class('Template2D', None, fields=T2)
+_T2OK = lambda t: '%s.ndim == 2 and len(%s.colmin) == len(%s.colmax) and %s.shape[1] == len(%s.colmax) and all(%s.colmax[k] >= %s.colmin[k] for k in range(len(%s.colmax)))' % ((t,) * 8)
+declare_class('TemplateStack', None, fields={'n': 'int', 'width': 'int'})
+declare_class('DenseStore', None, fields={'data': 'obj[TemplateStack]'})
+declare_class('TemplateRecord', None, fields={'template': 'obj[Template2D]', 'amplitude': 'arr[real]', 'best_channel': 'int', 'channel_ids': 'arr[int]'})
+contract('<lib>', 'TemplateStack.__getitem__', kind='assumed', params={'self': 'obj[TemplateStack]', 'i': 'int'}, result='obj[Template2D]',
+    requires=['0 <= i and i < self.n'], ensures=[_T2OK('result'), 'len(result.colmax) == self.width'], note='templates[i, ...]: the (n_samples, n_channels) waveform of template i')
+contract(M, 'TemplateModel._unwhiten', kind='assumed', params={'self': 'obj[TemplateModel]', 'x': 'obj[Template2D]'}, result='obj[Template2D]',
+    requires=[_T2OK('x')], ensures=[_T2OK('result'), 'len(result.colmax) == len(x.colmax)'], note='np.dot(x, wmi) * scaling: same shape (values are not specified)')
+contract('<lib>', 'Template2D.astype', kind='assumed', params={'self': 'obj[Template2D]', 'dtype': 'elem'}, result='obj[Template2D]',
+    requires=[_T2OK('self')], ensures=[_T2OK('result'), 'len(result.colmax) == len(self.colmax)'], note='a cast keeps the shape (values are rounded)')
+contract('<lib>', 'Template2D.__getitem__', kind='assumed', params={'self': 'obj[Template2D]', 'item': 'tuple[slice[none,none,none],arr[int]]'}, result='obj[Template2D]',
+    requires=[_T2OK('self'), 'all(0 <= item[1][j] and item[1][j] < len(self.colmax) for j in range(len(item[1])))'],
+    ensures=[_T2OK('result'), 'len(result.colmax) == len(item[1])', 'all(result.colmax[j] == self.colmax[item[1][j]] and result.colmin[j] == self.colmin[item[1][j]] for j in range(len(item[1])))'],
+    note='t[:, ids]: column j of the result is column ids[j] of t (so are its extremes)')
+contract('<lib>', 'Bunch', kind='assumed', params={}, kwargs='kw', cases=[{'kw': 'rec[template:obj[Template2D],amplitude:arr[real],best_channel:int,channel_ids:arr[int]]'}], result='obj[TemplateRecord]',
+    result_from={'fields_of': 'kw', 'cls': 'TemplateRecord'}, ensures=[], note='Bunch(**kw): a record whose attributes are the given values (same objects)')
+
+_RAMP = '(result.template.colmax[%s] - result.template.colmin[%s])'
+contract(M, 'TemplateModel._get_template_dense', props=['C05'],
+    params={'template_id': 'int', 'channel_ids': 'opt[arr[int]]', 'amplitude_threshold': 'opt[real]', 'unwhiten': 'bool'},
+    defaults={'channel_ids': 'None', 'amplitude_threshold': 'None', 'unwhiten': 'True'},
+    fields={'sparse_templates': 'obj[DenseStore]', 'channel_positions': 'arr[tuple[real,real]]', 'n_closest_channels': 'int', 'channel_shanks': 'arr[int]', 'amplitude_threshold': 'real'},
+    let={'nc': 'self.sparse_templates.data.width', 'thr': 'ite(amplitude_threshold is None, self.amplitude_threshold, amplitude_threshold)'},
+    requires=[('template-exists', '0 <= template_id and template_id < self.sparse_templates.data.n'),
+              ('geometry-covers-the-channels', 'nc >= 1 and len(self.channel_positions) == nc and len(self.channel_shanks) == nc'),
+              ('positions-pairwise-distinct', DISTINCT_POS.replace('channel_positions', 'self.channel_positions')),
+              ('neighbourhood-size-positive', 'self.n_closest_channels >= 1'),
+              ('threshold-is-a-fraction', '0 <= thr and thr <= 1'),
+              ('explicit-channels-exist', 'implies(channel_ids is not None, all(0 <= channel_ids[j] and channel_ids[j] < nc for j in range(len(channel_ids))))')],
+    result='obj[TemplateRecord]',
+    # from the statement: "column j of the returned waveform is the template on the j-th listed channel and entry j of the amplitude vector is
+    # that column's peak-to-peak amplitude"; "(or the caller's explicit list)"
+    ensures=[('one-column-and-one-amplitude-per-listed-channel', 'len(result.amplitude) == len(result.channel_ids) and len(result.template.colmax) == len(result.channel_ids) and result.template.ndim == 2'),
+             ('amplitude-j-is-the-peak-to-peak-of-column-j', 'all(result.amplitude[j] == %s for j in range(len(result.channel_ids)))' % (_RAMP % ('j', 'j'))),
+             ('explicit-list-is-returned-as-given', 'implies(channel_ids is not None, result.channel_ids is channel_ids)'),
+             ('automatic-list-is-not-empty', 'implies(channel_ids is None, len(result.channel_ids) >= 1)'),
+             ('automatic-list-amplitudes-decrease', 'implies(channel_ids is None, all(result.amplitude[i] >= result.amplitude[j] for i in range(len(result.amplitude)) for j in range(i + 1, len(result.amplitude))))'),
+             ('automatic-list-distinct-channels-in-range', 'implies(channel_ids is None, all(0 <= result.channel_ids[i] and result.channel_ids[i] < nc for i in range(len(result.channel_ids))) and all(result.channel_ids[i] != result.channel_ids[j] for i in range(len(result.channel_ids)) for j in range(i + 1, len(result.channel_ids))))'),
+             ('peak-channel-is-listed-when-automatic', 'implies(channel_ids is None, any(result.channel_ids[j] == result.best_channel for j in range(len(result.channel_ids))))')])
